@@ -74,6 +74,116 @@ type ProviderCase struct {
 	JWTAT      bool   `json:"jwt_at"`      // its access tokens are JWTs (carry iss)
 	PKCEClient string `json:"pkce_client"` // pub | web
 	NearMiss   string `json:"near_miss"`   // how the issuer asked from client.Discover is bent for the negative probe
+
+	// request shapes of the capability probes (the specifications allow several; every one must be honoured)
+	AuthzVia string    `json:"authz_via,omitempty"` // authorization requests of the grant / PKCE probes: "" = GET with query | post = POST with form body
+	MachAuth string    `json:"mach_auth,omitempty"` // how the machine client authenticates: "" = client_secret_basic | client_secret_post (only generated when enabled)
+	RO       []ROShape `json:"ro,omitempty"`        // request-object request shapes (none: the one classic shape, everything repeated in both places)
+}
+
+// ROShape is one shape of an authorization request carrying a signed request object (OIDC Core 6.1): every parameter
+// travels as plain (OAuth 2.0 syntax) parameter, inside the object only, or in both places with different values
+// (then the object's value counts); client_id, response_type and a scope with openid are always sent plain.
+type ROShape struct {
+	Via    string            `json:"via,omitempty"`    // "" = GET with query | post = POST with form body
+	Client string            `json:"client,omitempty"` // "" = web | mach (both registered with a key)
+	Aud    string            `json:"aud,omitempty"`    // spelling of the aud claim: "" = array | string | array-extra
+	Place  map[string]string `json:"place"`            // parameter -> plain | object | both (not listed = not sent at all)
+}
+
+// roParams: the parameters a request-object shape places, with the placements the specification allows for each.
+var roParams = []struct {
+	name   string
+	places []string
+}{
+	{"redirect_uri", []string{"plain", "object", "both"}}, // needed somewhere
+	{"response_type", []string{"plain", "both"}},          // plain is mandatory, the object may repeat it (same value)
+	{"scope", []string{"plain", "both"}},                  // plain (with openid) is mandatory, the object may widen it
+	{"state", []string{"", "plain", "object", "both"}},
+	{"nonce", []string{"", "plain", "object", "both"}},
+	{"response_mode", []string{"", "plain", "object", "both"}},
+	{"prompt", []string{"", "plain", "object", "both"}},
+	{"max_age", []string{"", "plain", "object", "both"}},
+	{"login_hint", []string{"", "plain", "object", "both"}},
+	{"code_challenge", []string{"", "plain", "object", "both"}}, // together with code_challenge_method
+}
+
+const (
+	roVerifierPlain  = "plain-verifier-0123456789-abcdefghijklmnopqrstuvwxyz_ABC"
+	roVerifierObject = "object-verifier-0123456789-abcdefghijklmnopqrstuvwxyz_AB"
+)
+
+// roValue: the value a parameter has as plain parameter (side "plain") and inside the object (side "object").
+func roValue(param, side string) string {
+	obj := side == "object"
+	switch param {
+	case "redirect_uri":
+		if obj {
+			return redirectWeb
+		}
+		return redirectWeb2
+	case "response_type":
+		return "code"
+	case "scope":
+		if obj {
+			return "openid profile email"
+		}
+		return "openid"
+	case "response_mode":
+		if obj {
+			return "fragment"
+		}
+		return "query"
+	case "prompt":
+		if obj {
+			return "select_account"
+		}
+		return "consent"
+	case "max_age":
+		if obj {
+			return "600"
+		}
+		return "300"
+	case "code_challenge":
+		if obj {
+			return vkit.S256(roVerifierObject)
+		}
+		return vkit.S256(roVerifierPlain)
+	}
+	if obj {
+		return param + "-from-object"
+	}
+	return param + "-from-query"
+}
+
+// classicRO is the single shape the check used before shapes were generated (kept for cases without shapes).
+func classicRO() ROShape {
+	return ROShape{Place: map[string]string{"redirect_uri": "both", "response_type": "both", "scope": "both", "state": "both", "nonce": "both"}}
+}
+
+func (sh ROShape) key() string {
+	k := sh.Via + "/" + sh.Client + "/" + sh.Aud + "/"
+	for _, p := range roParams {
+		pl := sh.Place[p.name]
+		if pl == "" {
+			pl = "-"
+		}
+		k += pl[:1]
+	}
+	return k
+}
+
+func genROShape(t *rapid.T, i int) ROShape {
+	sh := ROShape{Place: map[string]string{}}
+	sh.Via = rapid.SampledFrom([]string{"", "", "post"}).Draw(t, fmt.Sprintf("ro%d_via", i))
+	sh.Client = rapid.SampledFrom([]string{"", "", "mach"}).Draw(t, fmt.Sprintf("ro%d_client", i))
+	sh.Aud = rapid.SampledFrom([]string{"", "", "string", "array-extra"}).Draw(t, fmt.Sprintf("ro%d_aud", i))
+	for _, p := range roParams {
+		if pl := rapid.SampledFrom(p.places).Draw(t, fmt.Sprintf("ro%d_%s", i, p.name)); pl != "" {
+			sh.Place[p.name] = pl
+		}
+	}
+	return sh
 }
 
 // View is the pair of request headers an issuer can be derived from.
@@ -201,6 +311,16 @@ func genProvider(t *rapid.T) *ProviderCase {
 	pc.JWTAT = rapid.Bool().Draw(t, "jwt_at")
 	pc.PKCEClient = rapid.SampledFrom([]string{"pub", "web"}).Draw(t, "pkce_client")
 	pc.NearMiss = rapid.SampledFrom(nearKinds).Draw(t, "near_miss")
+	pc.AuthzVia = rapid.SampledFrom([]string{"", "", "post"}).Draw(t, "authz_via")
+	if pc.Post {
+		pc.MachAuth = rapid.SampledFrom([]string{"", "client_secret_post"}).Draw(t, "mach_auth")
+	}
+	if pc.ReqObj {
+		n := rapid.IntRange(1, 3).Draw(t, "ro_shapes")
+		for i := 0; i < n; i++ {
+			pc.RO = append(pc.RO, genROShape(t, i))
+		}
+	}
 	return pc
 }
 
@@ -393,6 +513,7 @@ func run(c Case) (res *vkit.Result) {
 
 const (
 	redirectWeb = "https://rp.example.com/cb"
+	redirectWeb2 = "https://rp.example.com/cb2" // second registered redirect URI of the confidential clients
 	redirectPub = "https://spa.example.com/cb"
 	machSecret  = "mach-secret"
 	idTokenType = "urn:ietf:params:oauth:token-type:id_token"
@@ -410,6 +531,9 @@ var docKeyOf = map[string]string{"authorization": "authorization_endpoint", "tok
 	"device_authorization": "device_authorization_endpoint"}
 
 var postEndpoints = map[string]bool{"token": true, "introspection": true, "revocation": true, "device_authorization": true}
+
+// endpoints that have to answer GET as well as POST
+var bothMethodEndpoints = map[string]bool{"authorization": true, "userinfo": true, "end_session": true}
 
 func modelIssuer(pc *ProviderCase) string {
 	if pc.IssuerMode == "static" {
@@ -501,7 +625,16 @@ func (pc *ProviderCase) key() string {
 	}
 	return "P|" + pc.Router + "|" + b(pc.S256) + b(pc.Post) + b(pc.PKJWT) + b(pc.Refresh) + b(pc.ReqObj) + b(pc.Insecure) + "|" +
 		b(pc.Caps.CC) + b(pc.Caps.TE) + b(pc.Caps.Device) + b(pc.Caps.Extras) + "|" + pc.IssuerMode + "|" + pc.Issuer + "|" + pc.Host + "|" +
-		strings.Join(pc.Forwarded, ",") + "|" + eps + "|" + pc.SignAlg + "|" + pc.WebAuth + "|" + pc.PKCEClient + "|" + strings.Join(pc.viewRelations(), ",")
+		strings.Join(pc.Forwarded, ",") + "|" + eps + "|" + pc.SignAlg + "|" + pc.WebAuth + "|" + pc.PKCEClient + "|" + strings.Join(pc.viewRelations(), ",") +
+		"|" + pc.AuthzVia + "|" + pc.MachAuth + "|" + strings.Join(pc.roKeys(), ",")
+}
+
+func (pc *ProviderCase) roKeys() []string {
+	var out []string
+	for _, sh := range pc.RO {
+		out = append(out, sh.key())
+	}
+	return out
 }
 
 // viewRelations classifies each further view against its predecessor.
@@ -563,10 +696,18 @@ func runProvider(pc *ProviderCase, res *vkit.Result) {
 
 	web := &vkit.ClientSpec{ID: "web", Secret: "web-secret", AppType: "web", AuthMethod: pc.WebAuth,
 		GrantTypes: []string{vkit.GCode, vkit.GRefr, vkit.GImpl, vkit.GBearer, vkit.GTE, vkit.GDevice}, ResponseTypes: []string{"code", "id_token", "id_token token"},
-		RedirectURIs: []string{redirectWeb}, Keys: map[string]string{"wk1": "rsa2"}, JWTAccessToken: pc.JWTAT}
-	mach := &vkit.ClientSpec{ID: "mach", Secret: machSecret, AppType: "web", AuthMethod: "client_secret_basic",
+		RedirectURIs: []string{redirectWeb, redirectWeb2}, Keys: map[string]string{"wk1": "rsa2"}, JWTAccessToken: pc.JWTAT}
+	machAuth := "client_secret_basic"
+	if pc.MachAuth == "client_secret_post" {
+		machAuth = pc.MachAuth
+		res.Label("mach-auth:post")
+	}
+	if pc.AuthzVia == "post" {
+		res.Label("authz-via:post")
+	}
+	mach := &vkit.ClientSpec{ID: "mach", Secret: machSecret, AppType: "web", AuthMethod: machAuth,
 		GrantTypes: []string{vkit.GCode, vkit.GRefr, vkit.GCC, vkit.GBearer, vkit.GTE, vkit.GDevice}, ResponseTypes: []string{"code"},
-		RedirectURIs: []string{redirectWeb}, Keys: map[string]string{"mk1": "rsa3"}, JWTAccessToken: true, Service: true}
+		RedirectURIs: []string{redirectWeb, redirectWeb2}, Keys: map[string]string{"mk1": "rsa3"}, JWTAccessToken: true, Service: true}
 	pub := &vkit.ClientSpec{ID: "pub", AppType: "user_agent", AuthMethod: "none", GrantTypes: []string{vkit.GCode, vkit.GRefr},
 		ResponseTypes: []string{"code"}, RedirectURIs: []string{redirectPub}}
 	st := vkit.NewStore([]*vkit.ClientSpec{web, mach, pub}, vkit.SignKeySpec{KeyName: pc.SignKey, Alg: pc.SignAlg, KID: "sig1"}, vkit.StorePolicy{})
@@ -625,7 +766,7 @@ func runProvider(pc *ProviderCase, res *vkit.Result) {
 func judgeView(pc *ProviderCase, res *vkit.Result, sut *vkit.SUT, st *vkit.Store, view View, idx int, info map[string]any, cl [3]*vkit.ClientSpec) map[string]any {
 	web, mach, pub := cl[0], cl[1], cl[2]
 	full := idx == 0
-	a := &ua{sut: sut, host: view.Host, fwd: view.Forwarded}
+	a := &ua{sut: sut, host: view.Host, fwd: view.Forwarded, via: pc.AuthzVia}
 
 	// 1. the document, fetched the way an RP does
 	d := a.get("/.well-known/openid-configuration", nil)
@@ -657,7 +798,7 @@ func judgeView(pc *ProviderCase, res *vkit.Result, sut *vkit.SUT, st *vkit.Store
 	for n, k := range docKeyOf {
 		nameOfKey[k] = n
 	}
-	machBasic := vkit.Cred{Kind: "basic", ClientID: "mach", Secret: machSecret}
+	machBasic := vkit.RightCred(mach, docIssuer) // Basic header or secret in the body, as registered for the case
 	advertisedEP := map[string]string{}
 	for _, k := range keys {
 		if !strings.HasSuffix(k, "_endpoint") && k != "jwks_uri" && k != "check_session_iframe" {
@@ -678,21 +819,42 @@ func judgeView(pc *ProviderCase, res *vkit.Result, sut *vkit.SUT, st *vkit.Store
 			res.Label("ep:foreign-url")
 			continue
 		}
-		var r *vkit.Resp
-		if postEndpoints[name] {
-			r = a.post(rel, url.Values{"token": {"probe"}, "scope": {"openid"}}, machBasic)
-		} else {
-			r = a.get(rel, nil)
-		}
+		// every method the specifications give the endpoint: POST for the back-channel endpoints, GET for the
+		// documents, GET and POST for authorization (Core 3.1.2.1), userinfo (Core 5.3.1) and end_session
+		methods := []string{"GET"}
 		switch {
-		case r.Panic != nil:
-			res.Fail("C19:panic@"+r.PanicFrame(), "probing advertised %s %q panicked: %v", k, adv, r.Panic)
+		case postEndpoints[name]:
+			methods = []string{"POST"}
+		case bothMethodEndpoints[name]:
+			methods = []string{"GET", "POST"}
+		}
+		routed := true
+		for _, m := range methods {
+			var r *vkit.Resp
+			switch {
+			case m == "POST" && postEndpoints[name]:
+				r = a.post(rel, url.Values{"token": {"probe"}, "scope": {"openid"}}, machBasic)
+			case m == "POST":
+				r = a.post(rel, url.Values{"scope": {"openid"}}, vkit.Cred{Kind: "none"})
+			default:
+				r = a.get(rel, nil)
+			}
+			switch {
+			case r.Panic != nil:
+				res.Fail("C19:panic@"+r.PanicFrame(), "probing advertised %s %q (%s) panicked: %v", k, adv, m, r.Panic)
+				routed = false
+			case r.Status == http.StatusNotFound || r.Status == http.StatusMethodNotAllowed:
+				res.Fail("C19:endpoint-advertised-not-routed:"+name, "%s is advertised as %q (issuer %q) but %s %s answers %d: %s", k, adv, docIssuer, m, rel, r.Status, r.Describe())
+				routed = false
+			}
+		}
+		if !routed {
 			broken[name] = true
-		case r.Status == http.StatusNotFound || r.Status == http.StatusMethodNotAllowed:
-			res.Fail("C19:endpoint-advertised-not-routed:"+name, "%s is advertised as %q (issuer %q) but %s %s answers %d: %s", k, adv, docIssuer, map[bool]string{true: "POST", false: "GET"}[postEndpoints[name]], rel, r.Status, r.Describe())
-			broken[name] = true
-		default:
+		} else {
 			res.Label("ep:routed")
+			if len(methods) > 1 {
+				res.Label("ep:routed:get+post")
+			}
 			if knownName {
 				sut.Paths[name] = rel // from here on the flows use the advertised address, like an RP
 			}
@@ -928,31 +1090,25 @@ func judgeView(pc *ProviderCase, res *vkit.Result, sut *vkit.SUT, st *vkit.Store
 	case !authAvail:
 		res.Label("reqobj:not-probeable")
 	default:
-		alg := "RS256"
-		if algs := strList(doc["request_object_signing_alg_values_supported"]); len(algs) > 0 && !contains(algs, alg) {
+		if algs := strList(doc["request_object_signing_alg_values_supported"]); len(algs) > 0 && !contains(algs, "RS256") {
 			res.Label("reqobj:no-rs256")
 		}
-		now := time.Now()
-		payload, _ := json.Marshal(map[string]any{"iss": "web", "client_id": "web", "aud": []string{docIssuer}, "response_type": "code",
-			"redirect_uri": redirectWeb, "scope": "openid profile", "state": "state-from-object", "nonce": "nonce-from-object",
-			"iat": now.Add(-5 * time.Second).Unix(), "exp": now.Add(10 * time.Minute).Unix()})
-		ro := vkit.MustSignJWT(alg, "wk1", vkit.Key("rsa2"), payload)
-		q := vkit.AuthParams(web, redirectWeb, "code", "openid", "state-from-query", "nonce-from-query")
-		q.Set("request", ro)
-		f := a.authFlow(q, "u1")
-		for _, r := range []*vkit.Resp{f.auth, f.cb} {
-			if r != nil && r.Panic != nil {
-				res.Fail("C19:panic@"+r.PanicFrame(), "authorization with a request object panicked: %v", r.Panic)
+		shapes := pc.RO
+		if len(shapes) == 0 {
+			shapes = []ROShape{classicRO()}
+			res.Label("reqobj:classic-shape")
+		}
+		var states []string
+		for n, sh := range shapes {
+			cl, kid, key, cred := web, "wk1", "rsa2", webCred
+			if sh.Client == "mach" {
+				cl, kid, key, cred = mach, "mk1", "rsa3", func() vkit.Cred { return machBasic }
+			}
+			if probeRO(res, a, st, sh, n, cl, kid, key, cred, docIssuer, tokenAvail, contains(methods, "S256"), &states) {
+				res.Label("reqobj:honoured")
 			}
 		}
-		stored, _ := st.AuthReqSnapshot(f.reqID)
-		got := f.params.Get("state")
-		info["reqobj_state"] = got
-		if got != "state-from-object" || f.params.Get("code") == "" || stored.Nonce != "nonce-from-object" {
-			res.Fail("C19:reqobj-advertised-not-honoured", "request_parameter_supported=true but a valid RS256 request object did not take effect: delivered state %q (want state-from-object), stored nonce %q, %s", got, stored.Nonce, f.describe())
-		} else {
-			res.Label("reqobj:honoured")
-		}
+		info["reqobj_state"] = strings.Join(states, ",")
 	}
 
 	// 7. the library's own RP-side discovery accepts this document for its issuer and for nothing else
@@ -974,6 +1130,156 @@ func judgeView(pc *ProviderCase, res *vkit.Result, sut *vkit.SUT, st *vkit.Store
 		res.Label("discover:own-document+near-miss")
 	}
 	return summary
+}
+
+// probeRO sends one authorization request with a valid signed request object (signed with the registered key of the
+// requesting client, iss = client_id, aud = the issuer of the document) in the given shape and judges that the object took
+// effect: the request is accepted, the stored authorization request and the redirect carry, for every parameter, the
+// object's value where the object has one and the plain value otherwise; a code challenge conveyed by the object binds
+// the code. Expectations are computed from the shape alone.
+func probeRO(res *vkit.Result, a *ua, st *vkit.Store, sh ROShape, n int, cl *vkit.ClientSpec, kid, key string, cred func() vkit.Cred,
+	docIssuer string, tokenAvail, s256 bool, states *[]string) bool {
+	via := "get"
+	if sh.Via == "post" {
+		via = "post"
+	}
+	aud := "array"
+	if sh.Aud != "" {
+		aud = sh.Aud
+	}
+	res.Label("reqobj:via:"+via, "reqobj:client:"+cl.ID, "reqobj:aud:"+aud)
+	now := time.Now()
+	object := map[string]any{"iss": cl.ID, "client_id": cl.ID, "iat": now.Add(-5 * time.Second).Unix(), "exp": now.Add(10 * time.Minute).Unix()}
+	switch aud {
+	case "string":
+		object["aud"] = docIssuer
+	case "array-extra":
+		object["aud"] = []string{"https://other-op.example.net", docIssuer}
+	default:
+		object["aud"] = []string{docIssuer}
+	}
+	plain := url.Values{"client_id": {cl.ID}}
+	want := map[string]string{}
+	var objectOnly []string
+	for _, p := range roParams {
+		pl := sh.Place[p.name]
+		if p.name == "code_challenge" && pl != "" && !s256 {
+			res.Label("reqobj:place:code_challenge:dropped-s256-not-advertised")
+			pl = ""
+		}
+		switch p.name { // sound domain: what every request needs is sent plain when the shape (e.g. a shrunk one) forgot it
+		case "redirect_uri", "response_type", "scope":
+			if pl == "" {
+				pl = "plain"
+			}
+		}
+		if (p.name == "response_type" || p.name == "scope") && pl == "object" {
+			pl = "both"
+		}
+		if pl == "" {
+			res.Label("reqobj:place:" + p.name + ":absent")
+			continue
+		}
+		res.Label("reqobj:place:" + p.name + ":" + pl)
+		if pl == "plain" || pl == "both" {
+			plain.Set(p.name, roValue(p.name, "plain"))
+			want[p.name] = roValue(p.name, "plain")
+			if p.name == "code_challenge" {
+				plain.Set("code_challenge_method", "S256")
+			}
+		}
+		if pl == "object" || pl == "both" {
+			v := roValue(p.name, "object")
+			want[p.name] = v
+			if p.name == "max_age" {
+				secs, _ := strconv.Atoi(v)
+				object[p.name] = secs
+			} else {
+				object[p.name] = v
+			}
+			if p.name == "code_challenge" {
+				object["code_challenge_method"] = "S256"
+			}
+			if pl == "object" {
+				objectOnly = append(objectOnly, p.name)
+			}
+		}
+	}
+	payload, _ := json.Marshal(object)
+	plain.Set("request", vkit.MustSignJWT("RS256", kid, vkit.Key(key), payload))
+
+	shape := fmt.Sprintf("shape %d (%s, client %s, aud %s, placements %v)", n, via, cl.ID, aud, sh.Place)
+	f := a.authFlowVia(sh.Via, plain, "u1")
+	for _, r := range []*vkit.Resp{f.auth, f.cb} {
+		if r != nil && r.Panic != nil {
+			res.Fail("C19:panic@"+r.PanicFrame(), "authorization with a request object panicked (%s): %v", shape, r.Panic)
+			return false
+		}
+	}
+	if f.reqID == "" {
+		res.Fail("C19:reqobj-advertised-not-honoured:refused", "request_parameter_supported=true but an authorization request with a valid RS256 request object was refused; %s, only inside the object: %v; %s", shape, objectOnly, f.describe())
+		return false
+	}
+	stored, _ := st.AuthReqSnapshot(f.reqID)
+	got := map[string]string{"redirect_uri": stored.RedirectURI, "response_type": string(stored.ResponseType), "scope": strings.Join(stored.Scopes, " "),
+		"state": stored.State, "nonce": stored.Nonce, "response_mode": string(stored.ResponseMode), "prompt": strings.Join(stored.Prompt, " "), "login_hint": stored.LoginHint}
+	if stored.MaxAge != nil {
+		got["max_age"] = strconv.FormatUint(uint64(*stored.MaxAge), 10)
+	}
+	if stored.Challenge != nil {
+		got["code_challenge"] = stored.Challenge.Challenge
+	}
+	ok := true
+	for _, p := range roParams {
+		if got[p.name] != want[p.name] {
+			ok = false
+			res.Fail("C19:reqobj-advertised-not-honoured:"+p.name, "request_parameter_supported=true but the authorization request created from a valid RS256 request object has %s %q, want %q (placement %q); %s", p.name, got[p.name], want[p.name], sh.Place[p.name], shape)
+		}
+	}
+	// what reaches the client
+	*states = append(*states, f.params.Get("state"))
+	target := f.location
+	if i := strings.IndexAny(target, "?#"); i >= 0 {
+		target = target[:i]
+	}
+	code := f.params.Get("code")
+	switch {
+	case f.cb == nil || !f.cb.IsRedirect() || code == "":
+		ok = false
+		res.Fail("C19:reqobj-advertised-not-honoured:no-code", "request_parameter_supported=true but the flow started with a valid request object delivers no code; %s; %s", shape, f.describe())
+	case target != want["redirect_uri"]:
+		ok = false
+		res.Fail("C19:reqobj-advertised-not-honoured:redirect_uri", "request_parameter_supported=true but the response goes to %q, want %q (placement %q); %s", target, want["redirect_uri"], sh.Place["redirect_uri"], shape)
+	case f.params.Get("state") != want["state"]:
+		ok = false
+		res.Fail("C19:reqobj-advertised-not-honoured:state", "request_parameter_supported=true but the delivered state is %q, want %q (placement %q); %s", f.params.Get("state"), want["state"], sh.Place["state"], shape)
+	}
+	// a code challenge the object conveyed binds the code like a plain one
+	if ch := want["code_challenge"]; ok && ch != "" && tokenAvail {
+		right, other := roVerifierPlain, roVerifierObject
+		if ch == roValue("code_challenge", "object") {
+			right, other = other, right
+		}
+		r1 := a.token(vkit.CodeExchangeForm(code, want["redirect_uri"], right), cred())
+		if r1.Panic != nil {
+			res.Fail("C19:panic@"+r1.PanicFrame(), "token endpoint panicked in the request-object PKCE probe: %v", r1.Panic)
+		} else if outcome(r1) != "ok" {
+			ok = false
+			res.Fail("C19:reqobj-advertised-not-honoured:code_challenge:right-verifier-refused", "the verifier of the effective code challenge (placement %q) is refused: %s; %s", sh.Place["code_challenge"], r1.Describe(), shape)
+		}
+		if sh.Place["code_challenge"] == "both" {
+			f2 := a.authFlowVia(sh.Via, plain, "u1")
+			r2 := a.token(vkit.CodeExchangeForm(f2.params.Get("code"), want["redirect_uri"], other), cred())
+			if r2.Panic != nil {
+				res.Fail("C19:panic@"+r2.PanicFrame(), "token endpoint panicked in the request-object PKCE probe: %v", r2.Panic)
+			} else if r2.Success() || len(r2.HasTokenMaterial()) > 0 {
+				ok = false
+				res.Fail("C19:reqobj-advertised-not-honoured:code_challenge:superseded-verifier-accepted", "the verifier of the plain code challenge the object superseded is accepted: %s; %s", r2.Describe(), shape)
+			}
+		}
+		res.Label("reqobj:pkce-probed:" + sh.Place["code_challenge"])
+	}
+	return ok
 }
 
 // ---- issuer cases ------------------------------------------------------------------------------
